@@ -2,6 +2,7 @@ import RsslVerif.Lemmas.SourceMap
 import RsslVerif.Spec.SourceMap
 import RsslVerif.Lemmas.Trivia
 import RsslVerif.Lemmas.TriviaLexer
+import RsslVerif.Gen.MacroTables
 /-!
 # C14 — layout trivia never changes results and diagnostics track source positions
 
@@ -788,6 +789,86 @@ theorem empty_argument_linebreak_witness :
     acceptsEmptyArgument [] = true ∧ acceptsEmptyArgument [.whitespace, .comment] = true ∧
     acceptsEmptyArgument [.endline] = false ∧ acceptsEmptyArgument [.whitespace, .endline, .whitespace] = false := by
   decide
+
+/-!
+# Part 3b: white space inside a higher-order invocation (`SELECT(INC<trivia>)(b)`; seeded mutant C14-7)
+
+`#define SELECT(f) f`, `#define INC(v) ((v)+1)`: in `SELECT(INC)(b)` the replaced region is the expanded argument, `INC`,
+and the `(` that invokes it is the text *behind* the region.  Trivia between the argument and the `)` of the outer
+invocation stays in the region when it ends in a line break (`trim_whitespace_end` keeps an `Endline`:
+`trimEndKeepsEndline`), so the region is `INC` + line break.  That the name is still invoked rests on where the scan is
+resumed: at the first token of the region (`earlyFunctionPosIsRegionStart`, and `Gen.MacroTables.searchPositions`, the
+table C12 pins too).  What C14 takes from C12 (`Thm.C12.agrees_on_higher_order_invocation` (file Thm/C12Boundary.lean), in this check's
+`theorems` list): the macro-expander model, evaluated on higher-order invocations whose name is invoked by the
+*replacement list* (`APPLY(NEG, a)`, `LIST(DECL)`, `CALL(ADD, (p, q))`, with white space tokens inside the argument
+lists), agrees with the reference semantics -- i.e. an argument that is a bare function-like macro name reaches the
+rescan unexpanded and is invoked there.  What C12's theorem does not cover and is proved here: the name is invoked by
+text *behind* the region, whatever white space (line breaks included) the region ends in.
+-/
+
+/-- the three places of preprocess.rs this part rests on are the modelled ones; the second conjunct is the same fact read
+from C12's table of every `MacroSearchPosition` literal (entry 1 = the `User` arm of `apply_single_macro`).  Fails under
+seeded mutant C14-7 (`early_function_pos: if tokens_added > 0 { new_end - 1 } else { pos }`). -/
+theorem macro_resume_as_modelled :
+    (earlyFunctionPosIsRegionStart = true ∧ findMacroScansFromEarlyFunctionPos = true ∧ trimEndKeepsEndline = true) ∧
+    RsslVerif.Gen.MacroTables.searchPositions[1]? =
+      some ["new_end", "pos", "if macro_def.is_function { macro_index } else { usize::MAX }"] := by
+  decide
+
+theorem skipAllWs_ws (w r : List RTok) (h : ∀ t ∈ w, t.isWs = true) : skipAllWs (w ++ r) = skipAllWs r := by
+  induction w with
+  | nil => rfl
+  | cons t w ih =>
+    have ht := h t (by simp)
+    simp [skipAllWs, ht, ih (fun u hu => h u (by simp [hu]))]
+
+theorem scanFrom_skip (n : Nat) (body r : List RTok) (h : ∀ t ∈ body, t ≠ .fnName) (i : Nat) :
+    scanFrom n i (body ++ r) = scanFrom n (i + body.length) r := by
+  induction body generalizing i with
+  | nil => simp
+  | cons t body ih =>
+    have ht := h t (by simp)
+    have := ih (fun u hu => h u (by simp [hu])) (i + 1)
+    simp [scanFrom, ht, this]
+    congr 1; omega
+
+/-- **For every replaced region that ends in the name of a function-like macro followed by any white space (line breaks
+included), and every following text that begins -- behind any white space -- with `(`: the scan resumed at the start of
+the region finds that name**, at its own index, whatever precedes the region (`pre`), whatever the region holds in front
+of the name (`body`: no other candidate name), whatever white space the region ends in (`trail`) and whatever separates
+the `(` (`gap`).  In particular the answer does not depend on `trail` and `gap`: white space between the last argument
+and the `)` of the outer invocation, and between that `)` and the next `(`, does not change what is invoked. -/
+theorem resume_at_region_start_finds_trailing_name (pre body trail gap tail : List RTok)
+    (hbody : ∀ t ∈ body, t ≠ .fnName) (htrail : ∀ t ∈ trail, t.isWs = true) (hgap : ∀ t ∈ gap, t.isWs = true) :
+    resumedScan earlyFunctionPosIsRegionStart pre (body ++ .fnName :: trail) (gap ++ .leftParen :: tail) =
+      some (pre.length + body.length) := by
+  have hflag : earlyFunctionPosIsRegionStart = true := by decide
+  rw [hflag]
+  have hw : ∀ t ∈ trail ++ gap, t.isWs = true := by
+    intro t ht; rcases List.mem_append.mp ht with h | h
+    · exact htrail t h
+    · exact hgap t h
+  have hs : skipAllWs (trail ++ (gap ++ RTok.leftParen :: tail)) = RTok.leftParen :: tail := by
+    rw [← List.append_assoc, skipAllWs_ws _ _ hw]; simp [skipAllWs, RTok.isWs]
+  unfold resumedScan resumeIndex
+  simp only [Bool.true_or, if_true]
+  rw [List.append_assoc, List.drop_left, List.append_assoc, scanFrom_skip _ _ _ hbody]
+  simp [scanFrom, hs]
+  omega
+
+/-- non-vacuity: `x = SELECT(INC // c⏎)(b)` after the expansion of `SELECT`: region `INC` + line break, then ` (b)` -/
+example : resumedScan earlyFunctionPosIsRegionStart [.other, .other] [.fnName, .endline] [.ws, .leftParen, .other, .other] = some 2 :=
+  resume_at_region_start_finds_trailing_name [.other, .other] [] [.endline] [.ws] [.other, .other]
+    (by simp) (by decide) (by decide)
+
+/-- why the start of the region: a scan resumed at the LAST token of the region (what seeded mutant C14-7 does) finds the
+name when the region ends with it, and misses it as soon as the region ends in a line break -- `SELECT(INC)(b)` is
+expanded, `SELECT(INC⏎)(b)` is not; resumed at the start both are -/
+theorem resume_at_region_end_linebreak_witness :
+    resumedScan false [] [.fnName] [.leftParen, .other] = some 0 ∧
+    resumedScan false [] [.fnName, .endline] [.leftParen, .other] = none ∧
+    resumedScan true [] [.fnName] [.leftParen, .other] = some 0 ∧
+    resumedScan true [] [.fnName, .endline] [.leftParen, .other] = some 0 := by decide
 
 /-!
 # Part 4: trivia insensitivity of the byte-level lexer model (`Model.Lexer`, the model of `preprocess/src/lexer.rs`)
